@@ -60,6 +60,16 @@ CHECKS = {
         "Trusted: analytic derivatives of cosines, numpy FFT for the independent Poisson residual. Bounds on N and the L lattice.",
         "DESIGN.md §4 C05",
     ),
+    "C08": (
+        "bounded exhaustive exploration: full symmetry-group enumeration (all N^D shifts, all D! axis permutations, all embedding axes) x state lattice, differential oracle on the real code",
+        "For every catalogue entry (every public stepper class and flag variant) x order 0-4 x D x odd/even N the stepper is applied to ALL grid "
+        "translations of smooth and white-noise-like states, to ALL axis permutations (with channel permutation for vector fields, signed for the "
+        "vorticity pseudo-scalar) and to the 1D state embedded along EVERY axis, and compared with the transformed result / the 1D stepper. The group "
+        "is enumerated completely; the state lattice is bounded because a full nonlinear step is a high-degree polynomial - the all-states claim "
+        "rests on C03 (term-level) + C02 (scheme) compositionally.",
+        "Trusted: numpy roll/transpose as the group action. Carve-outs in evidence.assumptions (Kolmogorov forcing, pseudo-scalar, a0 summed over axes).",
+        "DESIGN.md §4 C08",
+    ),
     "C09": (
         "bounded exhaustive exploration: BFS chains from ternary/basis/superposition state lattices for the mean; complete simplex lattice Lambda_3 for the cubic no-work forms; root x order x dt chains for equilibria",
         "(a) every listed conservation-form stepper x order x D x odd/even N is stepped 1..5 times from all 3^N ternary states (smallest 1D grids), "
